@@ -13,6 +13,8 @@ CONSTANTS
   MaxTx = 4
   SupplyCap = 10
   DataVals = {7, 8}
+  ConsArgs <- ConsNone
+  ConArgs <- ConsNone
   InitLedgers <- InitFN
   FailOdds = 6
   EndOdds = 2
